@@ -17,7 +17,7 @@ ASSUMPTIONS = ["DKW bound at alpha=1e-12 on randomized PIT values (harness RNG i
                "lineage models carry no repeated rules, so a daughter's first row is the partition itself"]
 RUN_OPTS = {"batch_size": 4, "timeout_per_case": 120.0}
 MINIMA = {"*": {"partitions": 20000, "lineages": 30, "divisions_checked": 100, "schnitz_rows_checked": 3000, "pit_samples": 20000,
-                "zero_propensity_cells": 5, "divisions_with_decoy_triggers": 50}}
+                "zero_propensity_cells": 5, "divisions_with_decoy_triggers": 50, "reconfigured_splitters": 40}}
 
 
 SANITIZE_TIERS = ("thorough",)
@@ -39,6 +39,12 @@ def generate(tier, seed):
         if kind == "general":
             c["noise"] = rnd.choice([0.0, 0.1, float("%.3g" % rnd.uniform(0, 0.4))])
             c["modes"] = [rnd.choice(["binomial", "perfect", "duplicate"]) for _ in range(4)]
+            if i % 2 == 1:
+                c["modes"] = [rnd.choice(["binomial", "duplicate"]) for _ in range(4)]        # no perfect species at all
+            # the splitter object is configured once before with other modes, then re-configured; empty mode lists are
+            # left out of the options dictionary (sparse) or passed as empty lists
+            c["pre_modes"] = [rnd.choice(["perfect", "perfect", "duplicate", "binomial"]) for _ in range(4)] if rnd.random() < 0.7 else None
+            c["sparse"] = rnd.random() < 0.6
         elif kind == "lineage":
             c["noise"] = rnd.choice([0.0, 0.5, 1.0, float("%.3g" % rnd.uniform(0, 1))])
             c["modes"] = [rnd.choice(["binomial", "perfect", "duplicate"]) for _ in range(4)]
@@ -92,8 +98,15 @@ def run_split(case):
     elif kind == "general":
         M = Model(species=species, initial_condition_dict={s: 0 for s in species})
         sp = GeneralVolumeSplitter()
-        sp.py_set_partitioning({"perfect": [s for s, m in zip(species, modes) if m == "perfect"],
-                                "duplicate": [s for s, m in zip(species, modes) if m == "duplicate"]}, M)
+        if case.get("pre_modes"):
+            sp.py_set_partitioning({"perfect": [s for s, m in zip(species, case["pre_modes"]) if m == "perfect"],
+                                    "duplicate": [s for s, m in zip(species, case["pre_modes"]) if m == "duplicate"]}, M)
+            C["reconfigured_splitters"] += 1
+        opts = {"perfect": [s for s, m in zip(species, modes) if m == "perfect"],
+                "duplicate": [s for s, m in zip(species, modes) if m == "duplicate"]}
+        if case.get("sparse"):
+            opts = {k: v for k, v in opts.items() if v}
+        sp.py_set_partitioning(opts, M)
         sp.py_set_partition_noise(case["noise"])
     else:
         M = LineageModel(species=species, initial_condition_dict={s: 0 for s in species})
@@ -111,6 +124,16 @@ def run_split(case):
             viol.append({"key": "C19/%s:%s" % (key, kind), "msg": "%s splitter modes=%s volume=%s noise=%s: %s" % (kind, modes, vmode, case.get("noise"), msg)})
 
     for it in range(case["n"]):
+        if kind == "general" and it > 0 and it % 125 == 0:
+            # the SAME splitter object is configured again (new modes; empty lists left out or not): from here on it
+            # must partition according to its latest configuration only
+            modes = [rnd.choice(["binomial", "perfect", "duplicate"] if rnd.random() < 0.5 else ["binomial", "duplicate"]) for _ in range(4)]
+            opts = {"perfect": [s for s, m in zip(species, modes) if m == "perfect"],
+                    "duplicate": [s for s, m in zip(species, modes) if m == "duplicate"]}
+            if rnd.random() < 0.6:
+                opts = {k: v for k, v in opts.items() if v}
+            sp.py_set_partitioning(opts, M)
+            C["reconfigured_splitters"] += 1
         state = np.zeros(4)
         for s in species:
             state[idx[s]] = float(rnd.choice([0, 1, 2, rnd.randint(0, 20), rnd.randint(0, 200)]))
